@@ -452,9 +452,8 @@ def real_programs(ck: Check):
     for x0 in (1e10, -1e10, 3e11, 9999999999.999998, -9999999999.999998):
         yield "start:edge", [x0, 0.0], lin_eq, lin_ctrl, P(), 1, 5, 1.0, True, None
         yield "start:edge-decay", [x0, -1.0], lin_eq, lin_ctrl, P(), 1, 5, 1.0, True, None
-    # time limit beyond 1e10 (time column leaves the range)
-    yield "time:huge", [1.0, 0.0], lin_eq, lin_ctrl, P(), 1, 5, 3e10, True, None
-    yield "time:huge", [1.0, 0.0], lin_eq, lin_ctrl, P(), 1, 9, 1.5e10, True, None
+    # (a time limit beyond 1e10 makes the time column leave the range: scripted stream only, because
+    #  `max_step=steps` would need > 1e9 real integrator steps)
 
     # --- the integrator gives up although nothing left the range (finding `time_limit_grows`) ------
     def noise_eq(state, t, _c, out):
@@ -658,9 +657,10 @@ def numeric_tests(ck: Check, ode_mod, np, real_jobs):
         if label in ("lin:analytic", "lin:stable") and res.shape[0] == steps and steps >= 2:
             a = start[1] - float(params[0])            # x' = (a - k) x + bias, bias = 0
             x0 = start[0]
-            worst = max(abs(float(r[0]) - x0 * math.exp(a * float(r[-1]))) / max(1e-9, abs(x0 * math.exp(a * float(r[-1]))))
-                        for r in res)
-            ck.spec(worst < 2e-2, "analytic", f"relative deviation {worst:.3g} from x0*exp((a-k)t)", case)
+            worst = max(abs(float(r[0]) - x0 * math.exp(a * float(r[-1])))
+                        / (2e-2 * abs(x0 * math.exp(a * float(r[-1]))) + 1e-4) for r in res)
+            ck.spec(worst < 1.0, "analytic",
+                    f"deviation from x0*exp((a-k)t) is {worst:.3g} x the tolerance (2e-2 relative + 1e-4 absolute)", case)
             ck.count("test:analytic")
         if res.shape[0] >= 2:
             a, b = ode_mod.diff_from_ode(res, n)
@@ -676,27 +676,36 @@ def numeric_tests(ck: Check, ode_mod, np, real_jobs):
             ck.count("test:diff")
 
 
-def system_validation(ck: Check, np):
-    """system.py promises `gamma must be positive and finite`, times `> 1e-5 and finite`"""
+def system_validation(ck: Check, np, ops, expect):
+    """system.py promises `gamma must be positive and finite`, times `> 1e-5 and finite` (fix 550679e);
+    correspondence with the model predicate `sysOk` + the promise itself as spec (keys system_*_check)"""
     from moptipyapps.dynamic_control.system import System
     st = np.array([[1.0, 0.0]])
-    for g in (-1.0, math.nan, -INF, INF):
+    vals_g = [-1.0, 0.0, -0.0, math.nan, -INF, INF, 5e-324, 0.1, 1.0, 1e300]
+    vals_t = [-5.0, 0.0, math.nan, -INF, INF, 1e-5, 9.999999999999999e-06, 1.0000000000000002e-05, 1e-4, 50.0]
+
+    def accepted(g, t1, t2):
         try:
-            System("x", 2, 1, 0, -1, g, st, st)
-            acc = True
+            System("x", 2, 1, 0, -1, g, st, st, test_time=t1, training_time=t2)
+            return True
         except ValueError:
-            acc = False
-        ck.spec(not acc, "system_gamma_check", f"System accepted gamma={g} (J can be negative / NaN)", {"gamma": g})
-    for t in (-5.0, math.nan, -INF, INF, 0.0):
-        for kw in ("test_time", "training_time"):
-            try:
-                System("x", 2, 1, 0, -1, 0.1, st, st, **{kw: t})
-                acc = True
-            except ValueError:
-                acc = False
-            ck.spec(not acc, "system_time_check",
-                    f"System accepted {kw}={t} (run_ode then integrates backwards / over an empty range)", {kw: t})
-    ck.count("sysval", 14)
+            return False
+    for g in vals_g:
+        acc = accepted(g, 50.0, 50.0)
+        ops.append(f"odeV {toks([g, 50.0, 50.0])}")
+        expect.append(("odeV", "sysval", f"ok={'true' if acc else 'false'}", None))
+        ck.spec(acc == (math.isfinite(g) and g > 0), "system_gamma_check",
+                f"System {'accepted' if acc else 'rejected'} gamma={g} (J can be negative / NaN for gamma <= 0)", {"gamma": g})
+    for t in vals_t:
+        for which in (0, 1):
+            t1, t2 = (t, 50.0) if which == 0 else (50.0, t)
+            acc = accepted(0.1, t1, t2)
+            ops.append(f"odeV {toks([0.1, t1, t2])}")
+            expect.append(("odeV", "sysval", f"ok={'true' if acc else 'false'}", None))
+            ck.spec(acc == (math.isfinite(t) and t > 1e-5), "system_time_check",
+                    f"System {'accepted' if acc else 'rejected'} {'test_time' if which == 0 else 'training_time'}={t} "
+                    "(run_ode integrates backwards / over an empty range for non-positive limits)", {"time": t, "which": which})
+    ck.count("sysval", len(vals_g) + 2 * len(vals_t))
 
 
 # --------------------------------------------------------------------------- the streams
@@ -731,7 +740,7 @@ def streams(ck: Check) -> None:
     # (3) figure of merit
     run_j(ck, ode_mod, np, ops, expect, real_jobs)
     numeric_tests(ck, ode_mod, np, real_jobs)
-    system_validation(ck, np)
+    system_validation(ck, np, ops, expect)
 
     outs = ck.model(ops)
     for line, (op, stream, iout, ctx), mout in zip(ops, expect, outs):
@@ -745,6 +754,8 @@ def streams(ck: Check) -> None:
             ck.count("res:" + kv(mout).get("res", "?"))
         elif op == "odeF":
             ck.compare(stream + ":f", short, mout, iout)
+        elif op == "odeV":
+            ck.compare(stream, short, mout, iout)
         elif op == "odeC":
             case, shape, bounds = ctx
             d = kv(mout)
